@@ -638,7 +638,7 @@ def c14_mixed_history(rng, with_net=True):
         if r < 0.40: return f"rmc:{owner if rng.random() < 0.5 else rng.choice(allc)}"
         if r < 0.48: return f"sus:{rng.choice(allc)}"
         if r < 0.56: return f"res:{rng.choice(allc)}"
-        if r < 0.68: return f"wr:{rng.choice(allc)}:{rng.choice([1, 5, 40])}:{rng.choice(['all', 'wb', 'half', '2', 'err'])}"
+        if r < 0.68: return f"wr:{rng.choice(allc)}:{rng.choice([1, 5, 40])}:{rng.choice(['all', 'wb', 'wb', 'half', '2', '1', 'err'])}"
         if r < 0.74 and listeners: return f"rml:{rng.choice(listeners)}"
         if r < 0.80 and ests: return f"rme:{rng.choice(ests)}"
         if r < 0.86 and timers: return f"rmt:{rng.choice(timers)}"
@@ -656,12 +656,29 @@ def c14_mixed_history(rng, with_net=True):
                     if rng.random() < 0.25: acts.append("null")
                     rng.shuffle(acts)
                 h.append(f"script {i} {k} {','.join(acts)}")
+    fresh = [40]
     for _ in range(rng.randint(1, 4)):
         for _ in range(rng.randint(0, 5)):
             r = rng.random()
+            if with_net and rng.random() < 0.12:
+                # objects created after others were removed (pool slots / descriptors are reused)
+                nid = fresh[0]
+                fresh[0] += 1
+                kind = rng.choice(["mkpair", "mklisten", "mkconn"])
+                h.append(f"{kind} {nid}")
+                socks.append(nid)
+                if kind == "mkpair":
+                    allc.append(nid)
+                elif kind == "mklisten":
+                    listeners.append(nid)
+                    h.append(f"dial {nid}")
+                else:
+                    ests.append(nid)
+                continue
             if r < 0.4: h.append(f"psend {rng.choice(allc)} {rng.choice([1, 3, 100])}")
             elif r < 0.5: h.append(f"pclose {rng.choice(allc)}")
             elif r < 0.7 and listeners: h.append(f"dial {rng.choice(listeners)}")
+            elif r < 0.78: h.append(f"act wr:{rng.choice(allc)}:{rng.choice([5, 40])}:{rng.choice(['wb', '2', 'half'])}")
             elif r < 0.85: h.append("act " + rand_act(rng.choice(allc)))
             elif r < 0.9: h.append(f"adv {rng.randint(0, 3)}")
             else: h.append("act intr")
@@ -689,6 +706,30 @@ def c14_equal_due_exhaustive():
             for q in range(1, n + 1):
                 hs.append(base + [f"script {q} 0 rmt:{r}", "run all - - -"])
                 hs.append(base + [f"script {q} 1 rmt:{r},mk:{50 + r}:2", "run all - - - -"])
+    return hs
+
+
+def c14_pending_exhaustive():
+    """two socket-pair clients (readable), a listener with a waiting connection and a connected establisher are all
+    reported by ONE epoll_wait in every order; the callback of the object dispatched first removes one of the others
+    (or itself), whose event is then still buffered in the poll: it must be dropped"""
+    import itertools as it
+    hs = []
+    ids = {"c1": 1, "c2": 2, "l": 10, "e": 15}
+    rm = {"c1": "rmc:1", "c2": "rmc:2", "l": "rml:10", "e": "rme:15"}
+    for order in it.permutations(["c1", "c2", "l", "e"]):
+        for victim in ["c1", "c2", "l", "e"]:
+            for extra in ["", "sus", "null"]:
+                first = order[0]
+                acts = [rm[victim]]
+                if extra == "sus":
+                    acts.append("sus:" + str(ids["c2"] if victim != "c2" else ids["c1"]))
+                if extra == "null" and first in ("l", "e"):
+                    acts.append("null")
+                h = ["mkpair 1", "mkpair 2", "mklisten 10", "mkconn 15", "psend 1 3", "psend 2 3", "dial 10",
+                     f"script {ids[first]} 0 {','.join(acts)}",
+                     "run all " + ",".join(str(ids[x]) for x in order) + " - " + ",".join(str(ids[x]) for x in order)]
+                hs.append(h)
     return hs
 
 
@@ -744,20 +785,23 @@ def check_c14(ctx):
         hs = C.load_corpus("C14")
         ncorpus = len(hs)
         ex = c14_equal_due_exhaustive()
-        nt, nm = (3000, 3000) if quick else (40000, 40000)
+        ex2 = c14_pending_exhaustive()
+        nt, nm = (6000, 9000) if quick else (60000, 90000)
         if not proof_ok:
             nt, nm = nt * 3, nm * 3
         tim = [c14_timer_history(rng, equal_due=(k % 2 == 0)) for k in range(nt)]
         mix = [c14_mixed_history(rng, with_net=(k % 3 != 0)) for k in range(nm)]
-        hs = hs + ex + tim + mix
+        hs = hs + ex + ex2 + tim + mix
         ctx.cov["rule"] = (f"corpus ({ncorpus}) + exhaustive equal-due scope: 1..8 timers created in one virtual millisecond with equal interval, "
                            f"remove(timer r) for every r before run / between runs / from the callback of every timer q ({len(ex)} histories) + "
+                           f"exhaustive pending-event scope: 2 clients + listener + establisher reported by one epoll_wait in all 24 orders, the first callback removes any of the four ({len(ex2)} histories) + "
                            f"{len(tim)} random timer programs (1..8 timers, intervals 1..3, create/remove/interrupt inside callbacks, interrupt before/during run) + "
                            f"{len(mix)} random mixed programs (1..4 socket-pair clients, 0..2 loop-back listeners with dialling peers, 0..2 establishers, 0..3 timers; "
                            "callback scripts with read/write/suspend/resume/remove of any object/remove of the client being accepted/null return/interrupt; "
                            "poll rounds reporting any ordered subset of the sockets; peer send/close); distinct_nontrivial = distinct callback logs with >= 2 events")
         ctx.cov["exhaustive"] = False
-        ctx.cov["exhaustive_scope"] = f"equal due times: n<=8 timers x remove position x remover position x 4 placements: {len(ex)} histories"
+        ctx.cov["exhaustive_scope"] = (f"equal due times: n<=8 timers x remove position x remover position x 4 placements: {len(ex)} histories; "
+                                       f"pending events: 24 report orders x 4 victims x 3 variants: {len(ex2)} histories")
         ops = {}
         for h in hs:
             for l in h:
